@@ -165,6 +165,7 @@ Definition proxy_prog (body : list switch_elem) (tail : list pevent) (o : op) : 
   flat_map (fun e => match e with
                      | PRequeue => [Act ORequeue; Signal 0%nat]
                      | PFree ops => if op_in o ops then [Act (OFree ByProxy)] else []
+                     | PStoreErr => [Act OUse]          (* writes item->err *)
                      end) tail.
 
 Definition runs_on_proxy (body : list switch_elem) (o : op) : bool :=
@@ -181,6 +182,7 @@ Fixpoint task_events (resume : nat) (evs : list wevent) : list action :=
   | WFree :: t => Act (OFree ByWrapper) :: task_events resume t
   | WReturnRet :: t => Act OReturn :: task_events resume t
   | WReturnVoid :: t => Act OReturn :: task_events resume t
+  | WRestoreErr _ :: t => Act OUse :: task_events resume t      (* reads job->err *)
   | _ :: t => task_events resume t
   end.
 
@@ -345,9 +347,51 @@ Fixpoint before_park (evs : list wevent) : list wevent :=
   match evs with [] => [] | WPark :: _ => [] | e :: t => e :: before_park t end.
 Definition wevent_tag (e : wevent) : nat :=
   match e with WAlloc => 0 | WSetThread => 1 | WSetOp => 2 | WMarshal _ _ _ => 3 | WSetBlockedOn => 4 | WSetState => 5
-             | WPark => 6 | WReadRet => 7 | WFree => 8 | WReturnRet => 9 | WReturnVoid => 10 end%nat.
+             | WPark => 6 | WReadRet => 7 | WFree => 8 | WReturnRet => 9 | WReturnVoid => 10 | WRestoreErr _ => 11 end%nat.
 Definition has_tag (n : nat) (evs : list wevent) : bool := existsb (fun e => Nat.eqb (wevent_tag e) n) evs.
 Definition wrapper_wf (wrp : wrapper) : bool :=
   let pre := before_park (w_events wrp) in
   match w_events wrp with WAlloc :: _ => true | _ => false end &&
   has_tag 1 pre && has_tag 2 pre && has_tag 4 pre && has_tag 5 pre && has_tag 6 (w_events wrp).
+
+(* ------------------------------------------------------------------ errno
+   The direct call leaves its error code in the CALLER's errno.  Through a wrapper the call runs on the proxy pthread; the
+   code reaches the caller only if the proxy stores it into the job before the task can resume (PStoreErr before PRequeue)
+   and the wrapper restores it after reading ret and before freeing the job (WRestoreErr).  Which of the two worlds holds is
+   read off the generated tables. *)
+Fixpoint proxy_stores_errno (tail : list pevent) : bool :=
+  match tail with
+  | [] => false
+  | PStoreErr :: _ => true
+  | PRequeue :: _ => false
+  | _ :: t => proxy_stores_errno t
+  end.
+Fixpoint after_park (evs : list wevent) : list wevent :=
+  match evs with [] => [] | WPark :: t => t | _ :: t => after_park t end.
+Fixpoint restore_of (seen_ret : bool) (evs : list wevent) : option errcond :=
+  match evs with
+  | [] => None
+  | WReadRet :: t => restore_of true t
+  | WFree :: _ => None
+  | WRestoreErr c :: _ => if seen_ret then Some c else None
+  | _ :: t => restore_of seen_ret t
+  end.
+Definition wrapper_restore (wrp : wrapper) : option errcond := restore_of false (after_park (w_events wrp)).
+Definition cond_holds (c : errcond) (ret : Z) : bool := match c with ErrNeg => ret <? 0 | ErrMinus1 => ret =? -1 end.
+
+(* e0: caller's errno before the call; gerr: stale err field of the recycled job; err: errno the call leaves behind *)
+Definition errno_after_direct (e0 ret err : Z) : Z := if ret <? 0 then err else e0.
+Definition errno_after_wrapper (tail : list pevent) (wrp : wrapper) (e0 gerr ret err : Z) : Z :=
+  match wrapper_restore wrp with
+  | Some c => if cond_holds c ret then (if proxy_stores_errno tail then err else gerr) else e0
+  | None => e0
+  end.
+
+Definition is_some {A} (o : option A) : bool := match o with Some _ => true | None => false end.
+(* the two consistent states of the source *)
+Definition errno_carried (body : list switch_elem) (tail : list pevent) (ws : list wrapper) : bool :=
+  proxy_stores_errno tail &&
+  forallb (fun w => Bool.eqb (is_syscall_wrapper body w) (is_some (wrapper_restore w))) ws.
+Definition errno_absent (tail : list pevent) (ws : list wrapper) : bool :=
+  negb (existsb (fun e => match e with PStoreErr => true | _ => false end) tail) &&
+  forallb (fun w => negb (has_tag 11 (w_events w))) ws.
